@@ -456,6 +456,21 @@ def run_traces(chk: core.Check, pid: str, ntraces: int, steps: int, ser: bool = 
             judged.append(ln)
     rej = trace_validate(chk, judged)
     tids = {ln["tid"] for ln in judged}
+    # binding canary: a few recorded histories with one registry entry dropped from the last observed state
+    bad = []
+    for tid in sorted(tids - {judged[i - 1]["tid"] for i in rej})[:6]:
+        hist = json.loads(json.dumps([ln for ln in judged if ln["tid"] == tid]))
+        for j in range(len(hist) - 1, 0, -1):
+            if hist[j].get("post", {}).get("reg"):
+                hist[j]["post"]["reg"] = hist[j]["post"]["reg"][1:]
+                bad += hist[: j + 1]
+                break
+    if bad:
+        crej = trace_validate(chk, bad, "canary")
+        chk.notes.setdefault("binding_canary", []).append({"trace_spec": "Trace_Registry", "corrupted_histories": len({ln["tid"] for ln in bad}),
+                                                         "rejected": len(crej)})
+        if not crej:
+            raise tlc.MachineryError("binding canary: Trace_Registry accepted histories with a registry entry dropped")
     bad_tids = set()
     for i, why in rej.items():
         ln = judged[i - 1]
